@@ -303,7 +303,7 @@ class Box:
                 (self.center, source),
                 (self.pos + self.size @ (0, 1), self.pos + self.size),
             )
-        if alpha < angle < math.pi:
+        if alpha <= angle < math.pi:
             return diagram.line_intersect(
                 (self.center, source),
                 (self.pos, self.pos + self.size @ (1, 0)),
